@@ -232,7 +232,59 @@ def gen_case(seed, tier, idx):
         ops.append(["map"])
     elif r < 0.35:
         ops.append(["map"])
-    return {"engine": "builder", "kind": kind, "cfg": cfg, "regs": regs, "ops": ops}
+    case = {"engine": "builder", "kind": kind, "cfg": cfg, "regs": regs, "ops": ops}
+    if valid_geometry(cfg) == 0:
+        case["ops"] = mark_propagating(case, rnd)
+    return case
+
+
+def mark_propagating(case, rnd):
+    """About a third of the Cluster/Index blocks become *propagating* blocks: the first add() inside that must be
+    refused is the last call of the block, and the harness lets that exception leave the `with` statement (it is
+    caught right outside), as user code does - so the scope must be unwound by the context manager itself."""
+    c = case["cfg"]
+    ratio = int(c["dw"]) // int(c["g"])
+    st = {"frozen": False, "ids": set()}
+
+    def refused(op):
+        _, name, k, off = op
+        off = _pyarg(off); nm = _pyname(name)
+        if not isinstance(k, int):
+            return True
+        if st["frozen"] or not (isinstance(nm, str) and nm):
+            return True
+        if off is not None and not (isint(off) and off >= 0):
+            return True
+        if off is not None and off % ratio:
+            return True
+        if k in st["ids"]:
+            return True
+        st["ids"].add(k)
+        return False
+
+    def walk(ops, prop):
+        """returns (new ops, aborted?)"""
+        out = []
+        for op in ops:
+            if op[0] == "add":
+                out.append(op)
+                if refused(op) and prop:
+                    return out, True
+            elif op[0] in ("cluster", "index"):
+                arg = _pyname(op[1]) if op[0] == "cluster" else _pyarg(op[1])
+                ok = (isinstance(arg, str) and bool(arg)) if op[0] == "cluster" else (isint(arg) and arg >= 0)
+                if not ok:
+                    out.append(op)
+                    continue
+                p2 = rnd.random() < 0.35
+                inner, aborted = walk(op[2], p2)
+                out.append([op[0], op[1], inner, "raise"] if (p2 and aborted) else [op[0], op[1], inner])
+            else:
+                if op[0] in ("freeze", "map"):
+                    st["frozen"] = True
+                out.append(op)
+        return out, False
+    return walk(case["ops"], False)[0]
 
 
 # ----------------------------------------------------------------------------- model encoding
@@ -371,8 +423,8 @@ def run_impl(case):
             pr = [code(e)]
         return [0, [m.addr_width, m.data_width, m.alignment], rs, ar, pr]
 
-    def run(ops):
-        out = []
+    def run(ops, out=None, prop=False):
+        out = [] if out is None else out
         for op in ops:
             if op[0] == "add":
                 _, name, k, off = op
@@ -382,6 +434,9 @@ def run_impl(case):
                     out.append([0 if r is reg else 6])
                 except Exception as e:
                     out.append([code(e)])
+                    if prop:                      # a propagating block: the exception leaves the `with` statement
+                        e._verif_propagating = True
+                        raise
             elif op[0] in ("cluster", "index"):
                 entered = False
                 body = []
@@ -389,10 +444,13 @@ def run_impl(case):
                     cm = b.Cluster(_pyname(op[1])) if op[0] == "cluster" else b.Index(_pyarg(op[1]))
                     with cm:
                         entered = True
-                        body = run(op[2])
+                        run(op[2], body, prop=(len(op) > 3 and op[3] == "raise"))
                     out.append([0, body, 0])
                 except Exception as e:
-                    out.append([0, body, code(e)] if entered else [code(e), [], 0])
+                    if entered and getattr(e, "_verif_propagating", False) and len(op) > 3:
+                        out.append([0, body, 0])  # the refused add() ended the block; caught right outside it
+                    else:
+                        out.append([0, body, code(e)] if entered else [code(e), [], 0])
             elif op[0] == "freeze":
                 b.freeze()
                 out.append([0])
